@@ -8,6 +8,7 @@ import (
 	"strconv"
 	"strings"
 	"sync"
+	"time"
 
 	"pgregory.net/rapid"
 )
@@ -451,8 +452,22 @@ func checkC20Doc(c *C20Case, st *Stats, fileTag ...string) error {
 		return err
 	}
 	path := filepath.Join(scratchDir(), "c20"+strings.Join(fileTag, "")+".json") // one file per concurrent goroutine
+	stamp, restamp := time.Unix(1700000000, 0), false
+	if len(c.Text) >= 8 && (len(c.Text)+c.Pos)%3 == 0 {
+		// the path held another document of exactly the same length before (its error on another line) and
+		// was read; the new content arrives with the old modification time, as cp -p / rsync -t / tar leave it
+		decoy := "{\n\n\n\nx" + strings.Repeat(" ", len(c.Text)-6)
+		if os.WriteFile(path, []byte(decoy), 0o600) == nil && os.Chtimes(path, stamp, stamp) == nil {
+			guarded("ParseFile", callParseFile(path))
+			restamp = true
+			st.Count("file_replaced_same_size_and_mtime")
+		}
+	}
 	if werr := os.WriteFile(path, []byte(c.Text), 0o600); werr != nil {
 		return &HarnessBug{fmt.Sprintf("cannot write scratch file: %v", werr)}
+	}
+	if restamp {
+		os.Chtimes(path, stamp, stamp)
 	}
 	f, gerr := guarded("ParseFile", callParseFile(path))
 	if gerr != nil {
